@@ -117,7 +117,9 @@ def main():
                            ("quad8", lambda: fem.RegionQuadraticQuad(fem.Rectangle(n=3).add_midpoints_edges())),
                            # all cells numbered from one common point, and a CONNECTED dual field of the same region class requested
                            # before (its option must not leak into the mixed fields built afterwards)
-                           ("quadcentre", lambda: centre_numbered())):
+                           ("quadcentre", lambda: centre_numbered()),
+                           # the axisymmetric field kind: a ring section away from the axis (R in [1, 2]), perturbed
+                           ("axi", lambda: fem.RegionQuad(perturb(fem.Rectangle(a=(0, 1), b=(1, 2), n=4), rng)))):
           rid = "condensed-%s-%d" % (fam, rep)
           if out.want(rid) and (fam == "hex" or rep == 0):
             bulk = float([8.0, 20.0, 64.0, 200.0][rep % 4])
@@ -125,11 +127,15 @@ def main():
             region = mkreg()
             dim = region.mesh.dim
             mkf = (lambda r: fem.Field(r, dim=3)) if dim == 3 else (lambda r: fem.FieldPlaneStrain(r, dim=2))
+            if fam == "axi":
+                mkf = lambda r: fem.FieldAxisymmetric(r, dim=2)  # noqa: E731
             f = fem.FieldContainer([mkf(region)])
             b, lc = fem.dof.uniaxial(f, clamped=True, move=move)
             sb = fem.SolidBodyNearlyIncompressible(fem.NeoHooke(mu=1.25), f, bulk=bulk)
             res = fem.newtonrhapson(items=[sb], verbose=0, tol=1e-10, **lc)
             fm = fem.FieldsMixed(region, n=3, planestrain=(dim == 2)) if dim == 2 else fem.FieldsMixed(region, n=3)
+            if fam == "axi":
+                fm = fem.FieldsMixed(region, n=3, axisymmetric=True)
             b2, lc2 = fem.dof.uniaxial(fm, clamped=True, move=move)
             sm = fem.SolidBody(fem.ThreeFieldVariation(fem.NeoHooke(mu=1.25, bulk=bulk)), fm)
             res2 = fem.newtonrhapson(items=[sm], verbose=0, tol=1e-10, **lc2)
